@@ -537,4 +537,125 @@ theorem lineRangesInclFixed_spec (w : Wave) (P : Nat) (δ : Int) :
   · intro h; simp [Wave.lineRangesInclFixed, h]
   · intro h; simp [Wave.lineRangesInclFixed, h]
 
+/-! ## `timestamp_mean(axis=1)` — the call behind the per-pixel timestamps — at any split depth -/
+
+
+/-- **`timestamp_mean(axis=1)` at any split depth** (the call that produces the per-pixel timestamps):
+    for every array of rows of width `w ≥ 1`, whatever the values, the result has one entry per row, and
+    entry `i` is at most the floor of the mean of row `i`, falls short of it by at most the number of
+    splits (itself at most `w − 1`), is at least the minimum of the whole array and at most the maximum of
+    its own row. -/
+theorem tsMeanRows_split_bounds (rows : List (List Int)) (w : Nat) (hw : 0 < w)
+    (hlen : ∀ r ∈ rows, r.length = w) (hne : rows.flatten ≠ []) :
+    ∃ res, tsMeanRows rows w = some res ∧ res.length = rows.length ∧
+      intMeanRowsSplits (shiftRows rows) w ≤ w - 1 ∧
+      ∀ (i : Nat) (hi : i < rows.length) (hi' : i < res.length),
+        rows[i].sum / (w : Int) - intMeanRowsSplits (shiftRows rows) w ≤ res[i] ∧
+        res[i] ≤ rows[i].sum / (w : Int) ∧
+        listMin rows.flatten ≤ res[i] ∧ res[i] ≤ listMax rows[i] := by
+  refine ⟨_, tsMeanRows_eq rows w hne, by simp, intMeanRowsSplits_le w _, ?_⟩
+  intro i hi hi'
+  simp only [List.getElem_map]
+  exact tsMeanRows_row_bounds rows w hw hlen rows[i] (List.getElem_mem hi)
+
+example : (∀ r ∈ [[0, 4, 5], [7, 8, 9223372036854775807]], r.length = 3) ∧
+    ([[0, 4, 5], [7, 8, 9223372036854775807]] : List (List Int)).flatten ≠ [] := by decide
+
+/-- In split mode a row's result can fall below that row's own minimum (the shift and the split
+    decision are array-wide): row `[1, 1]` next to a row spanning the whole of int64 yields `0`.
+    So "inside the pixel's first..last sample" needs the no-split hypothesis of `pixel_ts_spec`
+    (`hspan`); kernel-checked, replayed on the code by corpus case `rows_below_row_minimum`. -/
+theorem rows_below_min_witness :
+    tsMeanRows [[1, 1], [0, 9223372036854775807]] 2 = some [0, 4611686018427387903] := by
+  rw [tsMeanRows_eq _ _ (by decide)]
+  have e : shiftRows [[1, 1], [0, 9223372036854775807]] = [[1, 1], [0, 9223372036854775807]] := by decide
+  have m : listMin ([[1, 1], [0, 9223372036854775807]] : List (List Int)).flatten = 0 := by decide
+  simp only [e, m, List.map_cons, List.map_nil]
+  have hn : ∀ r, rowMeanWith [[1, 1], [0, 9223372036854775807]] 2 (2 : Nat) r = _ :=
+    fun r => rowMeanWith_node (r := r) (by decide)
+  simp only [hn, List.map_cons, List.map_nil]
+  have hl1 : ∀ r, rowMeanWith [List.take (2 / 2) [1, 1], List.take (2 / 2) [0, 9223372036854775807]] (2 / 2) (2 : Nat) r = _ :=
+    fun r => rowMeanWith_leaf (r := r) (by decide)
+  have hl2 : ∀ r, rowMeanWith [List.drop (2 / 2) [1, 1], List.drop (2 / 2) [0, 9223372036854775807]] (2 - 2 / 2) (2 : Nat) r = _ :=
+    fun r => rowMeanWith_leaf (r := r) (by decide)
+  simp only [hl1, hl2]
+  decide
+
+/-- **No overflow in `timestamp_mean(axis=1)`**: for timestamps `0 ≤ x < 2⁶³` every integer computed on
+    the way (the shifted array, every block's row sums and quotients, every element-wise sum of two
+    partial means, the final sums) lies in `[0, 2⁶³)`. -/
+theorem tsMeanRows_no_overflow (rows : List (List Int)) (w : Nat) (hw : 0 < w)
+    (hlen : ∀ r ∈ rows, r.length = w) (hne : rows.flatten ≠ [])
+    (hb : ∀ x ∈ rows.flatten, 0 ≤ x ∧ x ≤ I64MAX) :
+    ∀ y ∈ tsMeanRowsTrace rows w, 0 ≤ y ∧ y ≤ I64MAX := by
+  have hmin := hb _ (listMin_mem _ hne)
+  have hmax := hb _ (listMax_mem _ hne)
+  have hM : listMax rows.flatten - listMin rows.flatten ≤ I64MAX := by omega
+  have hrows : ∀ r' ∈ shiftRows rows, r'.length = w ∧
+      ∀ x ∈ r', 0 ≤ x ∧ x ≤ listMax rows.flatten - listMin rows.flatten := by
+    intro r' hr'
+    rcases List.mem_map.mp hr' with ⟨r, hr, rfl⟩
+    exact ⟨by simp only [List.length_map]; exact hlen r hr, shiftRows_bounds rows r hr⟩
+  intro y hy
+  simp only [tsMeanRowsTrace, List.mem_append] at hy
+  rcases hy with (hy | hy) | hy
+  · rcases List.mem_flatten.mp hy with ⟨r', hr', hy'⟩
+    have := (hrows r' hr').2 y hy'
+    omega
+  · rcases intMeanRowsTrace_mem _ _ _ y hy with ⟨r', hr', hy'⟩
+    exact rowTraceWith_bounds (w : Int) (by omega) _ hM w _ r' hr' hrows (by omega) y hy'
+  · rw [intMeanRows_eq_map, List.map_map] at hy
+    rcases List.mem_map.mp hy with ⟨r', hr', rfl⟩
+    rcases List.mem_map.mp hr' with ⟨r, hr, rfl⟩
+    have b := tsMeanRows_row_bounds rows w hw hlen r hr
+    have := le_listMax _ _ (List.mem_flatten.mpr ⟨r, hr, listMax_mem r (by
+      intro h; have := hlen r hr; rw [h] at this; simp at this; omega)⟩)
+    simp only [Function.comp]
+    have b' := b.2.2
+    simp only [shiftRows] at b'
+    omega
+
+/-- **Per-pixel timestamps without the no-split hypothesis**: for every info wave with at least one
+    complete pixel, whatever the start and the sample period, `reconstruct_image(timestamps,
+    reduce=timestamp_mean)` yields one value per complete pixel; it is at most the floor of the mean of
+    that pixel's `k` samples and at most its last sample, and falls short of the floor by at most `k − 1`
+    (`pixel_ts_spec`: by nothing when `(last − first)·k < 2⁶³` over the acquisition). -/
+theorem pixel_ts_general (w : Wave) (k : Nat) (hk : w.pixelSize = some k)
+    (hpix : (rowsOf k w.usedTs).flatten ≠ []) :
+    ∃ res, w.pixMean = some res ∧ res.length = (rowsOf k w.usedTs).length ∧
+      ∀ (i : Nat) (hi : i < (rowsOf k w.usedTs).length) (hi' : i < res.length),
+        (rowsOf k w.usedTs)[i].sum / (k : Int) - (k - 1 : Nat) ≤ res[i] ∧
+        res[i] ≤ (rowsOf k w.usedTs)[i].sum / (k : Int) ∧
+        res[i] ≤ listMax (rowsOf k w.usedTs)[i] := by
+  have hk0 := pixelSize_pos w k hk
+  have hlen := rowsOf_row_length k hk0 w.usedTs
+  rcases tsMeanRows_split_bounds _ k hk0 hlen hpix with ⟨res, hres, hl, hS, hb⟩
+  refine ⟨res, by unfold Wave.pixMean; rw [hk]; exact hres, hl, ?_⟩
+  intro i hi hi'
+  have := hb i hi hi'
+  refine ⟨?_, this.2.1, this.2.2.2⟩
+  have h1 := this.1
+  have : ((intMeanRowsSplits (shiftRows (rowsOf k w.usedTs)) k : Nat) : Int) ≤ ((k - 1 : Nat) : Int) :=
+    Int.ofNat_le.mpr hS
+  omega
+
+/-- **The per-pixel mean never overflows**: when all sample timestamps of the acquisition are
+    non-negative int64 values, every integer `timestamp_mean(axis=1)` computes for the pixel rows lies in
+    `[0, 2⁶³)` — at any split depth. -/
+theorem pixel_ts_no_overflow (w : Wave) (hdt : 0 < w.dt) (hs : 0 ≤ w.start) (k : Nat)
+    (hk : w.pixelSize = some k) (hpix : (rowsOf k w.usedTs).flatten ≠ [])
+    (hfit : ∀ t ∈ w.allTs, t ≤ I64MAX) :
+    ∀ y ∈ tsMeanRowsTrace (rowsOf k w.usedTs) k, 0 ≤ y ∧ y ≤ I64MAX := by
+  have hk0 := pixelSize_pos w k hk
+  apply tsMeanRows_no_overflow _ k hk0 (rowsOf_row_length k hk0 w.usedTs) hpix
+  intro x hx
+  have hxU := rowsOf_flatten_mem k _ x hx
+  have := usedTs_ge w hdt x hxU
+  have := hfit x ((usedTs_sublist w).subset hxU)
+  omega
+
+example :
+    let w : Wave := ⟨1000, 10, [0, 0, 1, 2, 1, 2, 1, 2, 0, 0, 0, 1, 2]⟩
+    w.pixelSize = some 2 ∧ (rowsOf 2 w.usedTs).flatten ≠ [] ∧ (∀ t ∈ w.allTs, t ≤ I64MAX) := by decide
+
 end Verif.C03
